@@ -103,20 +103,10 @@ impl ProjectExpression for BinaryExpr {
                 ArithOp::Add => Value::Int64(l.wrapping_add(*r)),
                 ArithOp::Sub => Value::Int64(l.wrapping_sub(*r)),
                 ArithOp::Mul => Value::Int64(l.wrapping_mul(*r)),
-                ArithOp::Div => {
-                    if *r == 0 {
-                        Value::Null
-                    } else {
-                        Value::Int64(l / r)
-                    }
-                }
-                ArithOp::Mod => {
-                    if *r == 0 {
-                        Value::Null
-                    } else {
-                        Value::Int64(l % r)
-                    }
-                }
+                // Division by zero and `i64::MIN / -1` have no integer result: NULL, as in
+                // the expression evaluator of the pull operators
+                ArithOp::Div => l.checked_div(*r).map_or(Value::Null, Value::Int64),
+                ArithOp::Mod => l.checked_rem(*r).map_or(Value::Null, Value::Int64),
             },
             (Value::Float64(l), Value::Float64(r)) => match self.op {
                 ArithOp::Add => Value::Float64(l + r),
@@ -255,5 +245,22 @@ mod tests {
         assert_eq!(col.get_value(0), Some(Value::Int64(11))); // 1 + 10
         assert_eq!(col.get_value(1), Some(Value::Int64(22))); // 2 + 20
         assert_eq!(col.get_value(2), Some(Value::Int64(33))); // 3 + 30
+    }
+
+    #[test]
+    fn test_integer_division_overflow_is_null() {
+        let chunk = DataChunk::new(vec![
+            ValueVector::from_values(&[Value::Int64(i64::MIN), Value::Int64(7)]),
+            ValueVector::from_values(&[Value::Int64(-1), Value::Int64(0)]),
+        ]);
+        for op in [ArithOp::Div, ArithOp::Mod] {
+            let expr = BinaryExpr::new(
+                Box::new(ColumnExpr::new(0)),
+                Box::new(ColumnExpr::new(1)),
+                op,
+            );
+            assert_eq!(expr.evaluate(&chunk, 0), Value::Null);
+            assert_eq!(expr.evaluate(&chunk, 1), Value::Null);
+        }
     }
 }
